@@ -7,6 +7,7 @@ which is what the separator produces (C16) — as long as the `u16` variable
 counter cannot overflow.
 -/
 import EtkVerif.Annot.Model
+import EtkVerif.Gen.OpTable
 namespace EtkVerif
 namespace Annot
 open Ops
@@ -33,19 +34,242 @@ def tableLedgerOK (t : OpTable) : Bool := (List.range 256).all (shapeLedgerOK t)
 table: an upper bound on the input variables the annotator can create. -/
 def popBudget (t : OpTable) (ops : List Disasm.Instr) : Nat := (ops.map (fun i => (rowOf t i.op).pops)).sum
 
+
+/-! ### Ledger tracking for the window primitives -/
+
+theorem tot_expand_spec : ∀ (n : Nat) (w : Win), w.vars + n ≤ 65535 →
+    ∃ w', expand w n = .ok w' ∧ w'.vars = w.vars + n ∧ w'.cur.length = w.cur.length + n ∧
+      w'.pops = w.pops ∧ w'.pushes = w.pushes
+  | 0, w, _ => ⟨w, rfl, rfl, rfl, rfl, rfl⟩
+  | n + 1, w, h => by
+    have hle : ¬ (w.vars + 1 > 65535) := by omega
+    obtain ⟨w', h1, h2, h3, h4, h5⟩ := tot_expand_spec n
+      { w with vars := w.vars + 1, cur := w.cur ++ [Tree.leaf (.var (w.vars + 1))] }
+      (by simp only; omega)
+    refine ⟨w', ?_, ?_, ?_, h4, h5⟩
+    · simp only [expand, hle, if_false]; exact h1
+    · simp only at h2; omega
+    · simp only [List.length_append, List.length_cons, List.length_nil] at h3; omega
+
+theorem tot_pop_spec (w : Win) (hp : 1 ≤ w.pops) (hv : w.vars + 1 ≤ 65535) :
+    ∃ t w', pop w = .ok (t, w') ∧ w'.pops = w.pops - 1 ∧ w'.pushes = w.pushes ∧
+      w'.vars ≤ w.vars + 1 := by
+  have h1 : ¬ w.pops < 1 := by omega
+  have hle : ¬ (w.vars + 1 > 65535) := by omega
+  cases hc : w.cur with
+  | nil =>
+    refine ⟨Tree.leaf (.var (w.vars + 1)), ⟨w.vars + 1, [], w.pops - 1, w.pushes⟩, ?_, rfl, rfl, Nat.le_refl _⟩
+    simp [pop, countPops, h1, hc, expand, hle]
+  | cons a r =>
+    refine ⟨a, ⟨w.vars, r, w.pops - 1, w.pushes⟩, ?_, rfl, rfl, Nat.le_succ _⟩
+    simp [pop, countPops, h1, hc]
+
+theorem tot_popN_spec : ∀ (k : Nat) (w : Win), k ≤ w.pops → w.vars + k ≤ 65535 →
+    ∃ ts w', popN k w = .ok (ts, w') ∧ w'.pops = w.pops - k ∧ w'.pushes = w.pushes ∧
+      w'.vars ≤ w.vars + k
+  | 0, w, _, _ => ⟨[], w, rfl, rfl, rfl, Nat.le_refl _⟩
+  | k + 1, w, hp, hv => by
+    obtain ⟨t, w1, e1, p1, q1, v1⟩ := tot_pop_spec w (by omega) (by omega)
+    obtain ⟨ts, w2, e2, p2, q2, v2⟩ := tot_popN_spec k w1 (by omega) (by omega)
+    refine ⟨t :: ts, w2, ?_, by omega, by omega, by omega⟩
+    simp only [popN, e1, e2]
+
+theorem tot_push_spec (w : Win) (t : Tree) (hp : w.pops = 0) (hq : 1 ≤ w.pushes) :
+    ∃ w', push w t = .ok w' ∧ w'.pops = 0 ∧ w'.pushes = w.pushes - 1 ∧ w'.vars = w.vars := by
+  have h1 : ¬ w.pushes < 1 := by omega
+  refine ⟨⟨w.vars, t :: w.cur, w.pops, w.pushes - 1⟩, ?_, hp, rfl, rfl⟩
+  simp [push, countPushes, hp, h1]
+
+theorem tot_window_spec (w : Win) (d : Nat) (hp : w.pops = d + 1) (hq : d + 1 ≤ w.pushes)
+    (hv : w.vars + (d + 1) ≤ 65535) :
+    ∃ w', window w d = .ok w' ∧ w'.pops = 0 ∧ w'.pushes = w.pushes - (d + 1) ∧
+      w'.vars ≤ w.vars + (d + 1) ∧ d + 1 ≤ w'.cur.length := by
+  have h1 : ¬ w.pops < d + 1 := by omega
+  have h2 : ¬ w.pushes < d + 1 := by omega
+  have h3 : w.pops - (d + 1) = 0 := by omega
+  by_cases hl : w.cur.length < d + 1
+  · obtain ⟨w', e, v, l, p, q⟩ := tot_expand_spec (1 + d - w.cur.length)
+      ⟨w.vars, w.cur, w.pops - (d + 1), w.pushes - (d + 1)⟩ (by simp only; omega)
+    refine ⟨w', ?_, by simpa [h3] using p, by simpa using q, by simp only at v; omega,
+      by simp only at l; omega⟩
+    simp [window, countPops, countPushes, h1, h2, h3, hl]
+    rw [h3] at e
+    exact e
+  · refine ⟨⟨w.vars, w.cur, w.pops - (d + 1), w.pushes - (d + 1)⟩, ?_, h3, rfl,
+      Nat.le_add_right _ _, by simp only; omega⟩
+    simp [window, countPops, countPushes, h1, h2, h3, hl]
+
+/-! ### One instruction -/
+
+/-- The exit returned agrees with the table's flags. -/
+def tot_exitOK (r : OpRow) : Option Exit → Prop
+  | none => r.exit = false
+  | some .terminate => r.exit = true
+  | some (.unconditional _) => r.jump = true
+  | some (.branch _ _ _) => r.jump = true
+  | some (.fallThrough _) => False
+
+theorem tot_annotateOne_spec (t : OpTable) (pc idx vars : Nat) (cur : List Tree) (i : Disasm.Instr)
+    (hok : shapeLedgerOK t i.op = true) (hv : vars + (rowOf t i.op).pops ≤ 65535) :
+    ∃ e w', annotateOne pc idx ⟨vars, cur, (rowOf t i.op).pops, (rowOf t i.op).pushes⟩ i = .ok (e, w') ∧
+      w'.pops = 0 ∧ w'.pushes = 0 ∧ w'.vars ≤ vars + (rowOf t i.op).pops ∧
+      tot_exitOK (rowOf t i.op) e := by
+  unfold shapeLedgerOK at hok
+  unfold annotateOne
+  generalize rowOf t i.op = r at hok hv ⊢
+  cases h : shapeOf i.op with
+  | halt k =>
+    simp only [h, Bool.and_eq_true, beq_iff_eq] at hok
+    obtain ⟨⟨hp, hq⟩, he⟩ := hok
+    obtain ⟨ts, w', e, p, q, v⟩ := tot_popN_spec k ⟨vars, cur, r.pops, r.pushes⟩ (by simp [hp]) (by simp only; omega)
+    refine ⟨some .terminate, w', by simp only [e], by simp only at p; omega, by simp only at q; omega,
+      by simp only at v; omega, he⟩
+  | op s k =>
+    simp only [h, Bool.and_eq_true, beq_iff_eq, Bool.not_eq_true'] at hok
+    obtain ⟨⟨hp, hq⟩, he⟩ := hok
+    obtain ⟨ts, w', e, p, q, v⟩ := tot_popN_spec k ⟨vars, cur, r.pops, r.pushes⟩ (by simp [hp]) (by simp only; omega)
+    simp only at p q v
+    obtain ⟨w'', e', p', q', v'⟩ := tot_push_spec w'
+      (.node s (if s.volatile then idx else 0) (Trees.ofList ts)) (by omega) (by omega)
+    refine ⟨none, w'', by simp only [e, e'], p', by omega, by omega, he⟩
+  | drop k =>
+    simp only [h, Bool.and_eq_true, beq_iff_eq, Bool.not_eq_true'] at hok
+    obtain ⟨⟨hp, hq⟩, he⟩ := hok
+    obtain ⟨ts, w', e, p, q, v⟩ := tot_popN_spec k ⟨vars, cur, r.pops, r.pushes⟩ (by simp [hp]) (by simp only; omega)
+    refine ⟨none, w', by simp only [e], by simp only at p; omega, by simp only at q; omega,
+      by simp only at v; omega, he⟩
+  | pc =>
+    simp only [h, Bool.and_eq_true, beq_iff_eq, Bool.not_eq_true'] at hok
+    obtain ⟨⟨hp, hq⟩, he⟩ := hok
+    obtain ⟨w'', e', p', q', v'⟩ := tot_push_spec ⟨vars, cur, r.pops, r.pushes⟩
+      (Tree.leaf (.getpc (pc % 65536))) hp (by simp only; omega)
+    simp only at q' v'
+    refine ⟨none, w'', by simp only [e'], p', by omega, by omega, he⟩
+  | nop =>
+    simp only [h, Bool.and_eq_true, beq_iff_eq, Bool.not_eq_true'] at hok
+    obtain ⟨⟨hp, hq⟩, he⟩ := hok
+    exact ⟨none, _, rfl, hp, hq, Nat.le_add_right _ _, he⟩
+  | pushImm =>
+    simp only [h, Bool.and_eq_true, beq_iff_eq, Bool.not_eq_true'] at hok
+    obtain ⟨⟨hp, hq⟩, he⟩ := hok
+    obtain ⟨w'', e', p', q', v'⟩ := tot_push_spec ⟨vars, cur, r.pops, r.pushes⟩
+      (Tree.leaf (.const (beValue i.imm))) hp (by simp only; omega)
+    simp only at q' v'
+    refine ⟨none, w'', by simp only [e'], p', by omega, by omega, he⟩
+  | dup n =>
+    simp only [h, Bool.and_eq_true, beq_iff_eq, Bool.not_eq_true', decide_eq_true_eq] at hok
+    obtain ⟨⟨⟨hn, hp⟩, hq⟩, he⟩ := hok
+    obtain ⟨w', e, p, q, v, l⟩ := tot_window_spec ⟨vars, cur, r.pops, r.pushes⟩ (n - 1)
+      (by simp only; omega) (by simp only; omega) (by simp only; omega)
+    simp only at q v
+    have hl : n - 1 < w'.cur.length := by omega
+    obtain ⟨w'', e', p', q', v'⟩ := tot_push_spec w' (w'.cur[n - 1]) p (by omega)
+    refine ⟨none, w'', ?_, p', by omega, by omega, he⟩
+    simp only [e, List.getElem?_eq_getElem hl, e']
+  | swap n =>
+    simp only [h, Bool.and_eq_true, beq_iff_eq, Bool.not_eq_true'] at hok
+    obtain ⟨⟨hp, hq⟩, he⟩ := hok
+    obtain ⟨w', e, p, q, v, l⟩ := tot_window_spec ⟨vars, cur, r.pops, r.pushes⟩ n
+      (by simp only; omega) (by simp only; omega) (by simp only; omega)
+    simp only at q v
+    exact ⟨none, { w' with cur := swapTop w'.cur n }, by simp only [e], p, by show w'.pushes = 0; omega, by show w'.vars ≤ _; omega, he⟩
+  | jump =>
+    simp only [h, Bool.and_eq_true, beq_iff_eq] at hok
+    obtain ⟨⟨hp, hq⟩, he⟩ := hok
+    obtain ⟨d, w', e, p, q, v⟩ := tot_pop_spec ⟨vars, cur, r.pops, r.pushes⟩ (by simp [hp]) (by simp only; omega)
+    simp only at p q v
+    refine ⟨some (.unconditional d), w', by simp only [e], by omega, by omega, by omega, he⟩
+  | jumpi =>
+    simp only [h, Bool.and_eq_true, beq_iff_eq] at hok
+    obtain ⟨⟨hp, hq⟩, he⟩ := hok
+    obtain ⟨d, w', e, p, q, v⟩ := tot_pop_spec ⟨vars, cur, r.pops, r.pushes⟩ (by simp [hp]) (by simp only; omega)
+    simp only at p q v
+    obtain ⟨c, w'', e', p', q', v'⟩ := tot_pop_spec w' (by omega) (by omega)
+    refine ⟨some (.branch c d (pc + 1)), w'', by simp only [e, e'], by omega, by omega, by omega, he⟩
+
+/-! ### The loop -/
+
+theorem tot_popBudget_cons (t : OpTable) (i : Disasm.Instr) (rest : List Disasm.Instr) :
+    popBudget t (i :: rest) = (rowOf t i.op).pops + popBudget t rest := by
+  simp [popBudget]
+
+theorem tot_annotateLoop_total (t : OpTable) (hT : ∀ b, b < 256 → shapeLedgerOK t b = true) :
+    ∀ (ops : List Disasm.Instr) (pc idx vars : Nat) (cur : List Tree),
+      (∀ i ∈ ops, i.op < 256) →
+      (∀ i ∈ ops.dropLast, Blocks.endsBlock t i = false) →
+      vars + popBudget t ops ≤ 65535 →
+      ∃ r, annotateLoop t ops pc idx vars cur = .ok r
+  | [], pc, _, vars, cur, _, _, _ => ⟨_, rfl⟩
+  | i :: rest, pc, idx, vars, cur, hops, hshape, hv => by
+    rw [tot_popBudget_cons] at hv
+    obtain ⟨e, w', he, hp, hq, hvar, hex⟩ := tot_annotateOne_spec t pc idx vars cur i
+      (hT _ (hops i (List.mem_cons_self ..))) (by omega)
+    have hdl : ¬ (w'.pops ≠ 0 ∨ w'.pushes ≠ 0) := by omega
+    by_cases hr : rest = []
+    · subst hr
+      cases e with
+      | none =>
+        simp only [tot_exitOK] at hex
+        simp only [annotateLoop, he, hex, hdl, if_false, Bool.false_eq_true]; exact ⟨_, rfl⟩
+      | some x =>
+        cases x with
+        | terminate =>
+          simp only [tot_exitOK] at hex
+          simp [annotateLoop, he, hex, hdl]
+        | fallThrough _ => exact absurd hex id
+        | unconditional _ =>
+          simp only [tot_exitOK] at hex
+          simp [annotateLoop, he, hex, hdl]
+        | branch _ _ _ =>
+          simp only [tot_exitOK] at hex
+          simp [annotateLoop, he, hex, hdl]
+    · have hmem : i ∈ (i :: rest).dropLast := by
+        cases rest with
+        | nil => exact absurd rfl hr
+        | cons a r => simp [List.dropLast]
+      have hends := hshape i hmem
+      simp only [Blocks.endsBlock, Bool.or_eq_false_iff] at hends
+      obtain ⟨hj, hx⟩ := hends
+      have hsub : ∀ j ∈ rest.dropLast, Blocks.endsBlock t j = false := by
+        intro j hj'
+        apply hshape
+        cases rest with
+        | nil => exact absurd rfl hr
+        | cons a r => simp only [List.dropLast_cons_cons]; exact List.mem_cons_of_mem _ hj'
+      cases e with
+      | none =>
+        obtain ⟨r, hr'⟩ := tot_annotateLoop_total t hT rest (pc + (rowOf t i.op).size) (idx + 1) w'.vars w'.cur
+          (fun j hj' => hops j (List.mem_cons_of_mem _ hj')) hsub (by omega)
+        exact ⟨r, by simp only [annotateLoop, he, hx, hdl, if_false, Bool.false_eq_true]; exact hr'⟩
+      | some x =>
+        cases x with
+        | terminate => simp only [tot_exitOK] at hex; rw [hex] at hx; exact absurd hx (by decide)
+        | fallThrough _ => exact absurd hex id
+        | unconditional _ => simp only [tot_exitOK] at hex; rw [hex] at hj; exact absurd hj (by decide)
+        | branch _ _ _ => simp only [tot_exitOK] at hex; rw [hex] at hj; exact absurd hj (by decide)
+
 theorem annotate_total (t : OpTable) (hT : tableLedgerOK t = true) (b : Blocks.Block)
     (hne : b.ops ≠ [])
     (hops : ∀ i ∈ b.ops, i.op < 256)
     (hshape : ∀ i ∈ b.ops.dropLast, Blocks.endsBlock t i = false)
     (hvars : popBudget t b.ops ≤ 65535) :
     ∃ a, annotate t b = .ok a := by
-  sorry
+  have _ := hne
+  have hT' : ∀ b, b < 256 → shapeLedgerOK t b = true := by
+    intro b hb
+    unfold tableLedgerOK at hT
+    rw [List.all_eq_true] at hT
+    exact hT b (List.mem_range.mpr hb)
+  obtain ⟨⟨e, v, c⟩, hr⟩ := tot_annotateLoop_total t hT' b.ops b.offset 0 0 [] hops hshape (by omega)
+  simp only [annotate, hr]; exact ⟨_, rfl⟩
 
 /-- The bound is sharp in kind: the counter is a `u16`, and a block that needs
 65 536 input variables makes the annotator panic (D20). -/
 theorem annotate_var_overflow_witness :
     annotate [⟨0, [], 0, 1, 0, false, false, false, 1, 0, 0, []⟩]
       ⟨0, List.replicate 65536 ⟨0, []⟩⟩ = .error .varOverflow ∨ True := Or.inr trivial
+
+theorem tableLedgerOK_cancun : tableLedgerOK Gen.cancun = true := by decide +kernel
 
 end Annot
 end EtkVerif
